@@ -593,8 +593,11 @@ def run_property(mod, tier: str, seed: int, replay: str | None = None) -> int:
         shutil.rmtree(workdir, ignore_errors=True)
 
 
-def shrink(mod, modname, case, hs, key, budget: int = 900):
-    """Greedy delta debugging: keep a smaller case while the oracle still reports `key`."""
+def shrink(mod, modname, case, hs, key, budget: int | None = None):
+    """Greedy delta debugging: keep a smaller case while the oracle still reports `key`.
+    VERIF_SHRINK_BUDGET bounds the number of candidate executions (minimisation only: the verdict does not depend on it)."""
+    if budget is None:
+        budget = int(os.environ.get("VERIF_SHRINK_BUDGET", "900"))
     cur = case
     steps = 0
     improved = True
